@@ -1,5 +1,5 @@
 import Clikit.Drv.C01
-import Clikit.Props.C05
+import Clikit.Model.CommandParse
 /-!
 Driver entry `c05.command_history`: parse requests issued through `Command.parse(args, lenient=None)` of commands
 whose configs share ONE parser object.  Every request carries the optional explicit mode (`explicit`: `null` = the
@@ -7,7 +7,7 @@ parameter was omitted) and what the command's config answers at that moment (`co
 parser is `Gen.C05.commandMode` (read from the current source of `Command.parse`).
 -/
 namespace Clikit.Drv.C05
-open Lean Clikit.Drv Clikit.Parser Clikit.Props.C05
+open Lean Clikit.Drv Clikit.Parser
 
 def creqOf (j : Json) : R CReq := do
   let f ← C01.fmtOf (← field j "fmt")
